@@ -304,6 +304,8 @@ class World(object):
         return n
 
     def exc_attr(self, ex, exc, attr):
+        if attr == 'payload':
+            return exc.payload if exc.payload is not None else VOpaque('no-payload')
         raise Unsupported('attribute %s of exception' % attr)
 
     def spec_name(self, ex, name):
@@ -1266,10 +1268,10 @@ def bi_struct_unpack(w, ex, args, kwargs, node):
     off = 0
     for k in kinds:
         if k == 'I':
-            out.append(VInt(SF.unle32(z3.SubSeq(data.term, off, 4))))
+            out.append(VInt(SF.unle32(ex.slice_term(data.term, z3.IntVal(off), z3.IntVal(off + 4)))))
             off += 4
         else:
-            out.append(VBytes(z3.SubSeq(data.term, off, k[1]), False))
+            out.append(VBytes(ex.slice_term(data.term, z3.IntVal(off), z3.IntVal(off + k[1])), False))
             off += k[1]
     return VTuple(out)
 
@@ -1443,7 +1445,7 @@ def sp_bsum(w, ex, node):
 def sp_word(w, ex, node):
     """word(b, i) = the i-th little-endian 32-bit word of b"""
     b, i = _spec_args(ex, node)
-    return VInt(SF.unle32(z3.SubSeq(b.term, 4 * to_int(i), 4)))
+    return VInt(SF.unle32(ex.slice_term(b.term, 4 * to_int(i), 4 * to_int(i) + 4)))
 
 
 def sp_hdr(w, ex, node):
@@ -1537,6 +1539,26 @@ def sp_nextid(w, ex, node):
     return VInt(z3.If(t + 1 == TWO32, 1, t + 1))
 
 
+def sp_FS_w(w, ex, node):
+    a, b, c = _spec_args(ex, node)
+    return VInt(SF.FS_w(to_int(a), to_int(b), to_int(c)))
+
+
+def sp_catFS(w, ex, node):
+    a, b, c = _spec_args(ex, node)
+    return VBytes(SF.catFS(to_int(a), to_int(b), to_int(c)), False)
+
+
+def sp_asbytearray(w, ex, node):
+    (b,) = _spec_args(ex, node)
+    return VBytes(b.term, True)
+
+
+def sp_SB(w, ex, node):
+    l, a, b = _spec_args(ex, node)
+    return VBytes(SF.SB(to_int(l), z3.simplify(to_int(a)), z3.simplify(to_int(b))), False)
+
+
 def sp_cmdset(w, ex, node):
     vals = _spec_args(ex, node)
     return w.coerce(ex, VList(vals), 'cmdset')
@@ -1593,6 +1615,8 @@ SPEC_FUNCS = {
     'real': sp_real, 'zeros': sp_zeros, 'frame': sp_frame, 'rep': sp_rep, 'nextid': sp_nextid, 'same': sp_same, 'forall_int': sp_forall_int, 'cmdset': sp_cmdset,
     'D_cmd': sp_D(SF.D_cmd, lambda t: VBytes(t, False)), 'D_a0': sp_D(SF.D_a0, VInt), 'D_a1': sp_D(SF.D_a1, VInt),
     'D_data': sp_D(SF.D_data, lambda t: VBytes(t, False)), 'catD': sp_catD,
+    'FS_id': sp_D(SF.FS_id, lambda t: VBytes(t, False)), 'FS_data': sp_D(SF.FS_data, lambda t: VBytes(t, True)), 'FS_w': sp_FS_w, 'catFS': sp_catFS,
+    'asbytearray': sp_asbytearray, 'SB': sp_SB,
 }
 
 SPEC_CONSTS = {
